@@ -73,12 +73,18 @@ def lookup (tbl : Table) (k : String) : Option Cls :=
   | (k', c) :: rest => if k' == k then some c else lookup rest k
 
 /-- Follow `embed` links (method promotion). -/
-def resolve (tbl : Table) : Nat → String → Option Cls
+def resolveCls (tbl : Table) : Nat → Cls → Option Cls
   | 0, _ => none
-  | n + 1, k =>
+  | n + 1, .embed k =>
     match lookup tbl k with
-    | some (.embed k') => resolve tbl n k'
-    | r => r
+    | some c => resolveCls tbl n c
+    | none => none
+  | _ + 1, c => some c
+
+def resolve (tbl : Table) (fuel : Nat) (k : String) : Option Cls :=
+  match lookup tbl k with
+  | some c => resolveCls tbl fuel c
+  | none => none
 
 /-- What a parent sees of a child: its field, whether it is nil, and its own `IsReadOnly()`. -/
 structure ChildRes where
@@ -96,11 +102,16 @@ def conj : List Res → Res
 
 def sel (f : String) (cs : List ChildRes) : List ChildRes := cs.filter (fun c => c.field == f)
 
+/-- The consulted children, in the order the harness serialises them (= `Children()` order, which
+is the order of the conjuncts in every method of the source: left/right, IfConditionals…/Else). -/
+def consulted (fs : List String) (cs : List ChildRes) : List Res :=
+  (cs.filter (fun c => fs.contains c.field)).map (·.res)
+
 def step (c : Cls) (a : Attr) (cs : List ChildRes) : Res :=
   match c with
   | .const b => .ok b
-  | .fields fs => conj (fs.flatMap fun f => (sel f cs).map (·.res))
-  | .via f _ _ => conj ((sel f cs).map (·.res))
+  | .fields fs => conj (consulted fs cs)
+  | .via f _ _ => conj (consulted [f] cs)
   | .optField f =>
     match sel f cs with
     | [c] => if c.isNil then .ok true else c.res
@@ -177,15 +188,14 @@ mutual
 variable `valid`: pre-order; a callback result `false` prunes the node's children but not its
 siblings; `valid = isTempTable(rt.Table)` overwrites `valid` at every resolved table reached;
 `isTempTable` dereferences a nil interface when the table does not implement
-sql.TemporaryTable. -/
+sql.TemporaryTable; descending into a nil node panics (`n.Children()` on a nil interface). -/
 def tempSearch : Node → St → St
   | .mk _ kind _ a cs, st =>
     match st with
     | .panic => .panic
     | .valid v =>
-      if kind == nilKind then .panic
-      else if kind == resolvedTable then (if a.tempIface then .valid a.temp else .panic)
-      else if v then tempSearchL cs (.valid v) else .valid v
+      if kind == resolvedTable then (if a.tempIface then .valid a.temp else .panic)
+      else if v then (if kind == nilKind then .panic else tempSearchL cs (.valid v)) else .valid v
 def tempSearchL : List Node → St → St
   | [], st => st
   | c :: cs, st => tempSearchL cs (if c.isChild then tempSearch c st else st)
@@ -194,13 +204,26 @@ end
 mutual
 /-- `transform.InspectWithOpaque(ctx, node, readOnlyDBSearch)` threading `valid` (which this
 callback only ever lowers). -/
-def dbSearch (enforce : Bool) : Node → Bool → Bool
-  | .mk _ kind _ a cs, v =>
-    let v' := if kind == resolvedTable && a.roIface then (if a.roDb then false else if enforce then false else v) else v
-    if v' then dbSearchL enforce cs v' else v'
-def dbSearchL (enforce : Bool) : List Node → Bool → Bool
-  | [], v => v
-  | c :: cs, v => dbSearchL enforce cs (if c.isChild then dbSearch enforce c v else v)
+def dbSearch (enforce : Bool) : Node → St → St
+  | .mk _ kind _ a cs, st =>
+    match st with
+    | .panic => .panic
+    | .valid v =>
+      let v' := if kind == resolvedTable && a.roIface then (if a.roDb then false else if enforce then false else v) else v
+      if v' then (if kind == nilKind then .panic else dbSearchL enforce cs (.valid v')) else .valid v'
+def dbSearchL (enforce : Bool) : List Node → St → St
+  | [], st => st
+  | c :: cs, st => dbSearchL enforce cs (if c.isChild then dbSearch enforce c st else st)
+end
+
+mutual
+/-- A nil node is reachable through `Children()` edges: a traversal whose callback keeps
+returning `true` panics on it. -/
+def reachNil : Node → Bool
+  | .mk _ kind _ _ cs => kind == nilKind || reachNilL cs
+def reachNilL : List Node → Bool
+  | [] => false
+  | c :: cs => (c.isChild && reachNil c) || reachNilL cs
 end
 
 inductive Tx where
@@ -233,22 +256,22 @@ def roTxRule (F : RuleFacts) (tx : Tx) (enforce : Bool) (n : Node) : Outcome :=
       | _ => .panic
     else if F.txReject.contains k then .reject
     else if F.txTempCreate.contains k then (if n.attr.flag then .reject else .pass)
-    else .pass
+    else if F.ddl.contains k then .pass
+    else if reachNil n then .panic else .pass
 
 /-- `validateReadOnlyDatabase` (`reject` = ErrReadOnlyDatabase, or ErrProcedureCallAsOfReadOnly
 when the scope enforces read-only). -/
 def roDbRule (F : RuleFacts) (enforce : Bool) (n : Node) : Outcome :=
   let k := n.kind
-  let r (v : Bool) : Outcome := if v then .pass else .reject
-  if F.dbSearchRoot.contains k then r (dbSearch enforce n true)
+  if F.dbSearchRoot.contains k then ofSt (dbSearch enforce n (.valid true))
   else if F.dbSearchDest.contains k then
     match fieldNodes "Destination" n.children with
-    | [d] => if d.isNil then .panic else r (dbSearch enforce d true)
+    | [d] => ofSt (dbSearch enforce d (.valid true))
     | _ => .panic
   else if F.dbOwn.contains k then
-    r (if n.attr.roIface then (if n.attr.roDb then false else if enforce then false else true) else true)
-  else if F.ddl.contains k then r (dbSearch enforce n true)
-  else .pass
+    (if n.attr.roIface && (n.attr.roDb || enforce) then .reject else .pass)
+  else if F.ddl.contains k then ofSt (dbSearch enforce n (.valid true))
+  else if reachNil n then .panic else .pass
 
 /-! ## Spec -/
 
@@ -304,28 +327,62 @@ def verdicts (exp : ExpTable) (runs : List String) : List Node → List V
   | c :: cs => if runs.contains c.field then verdict exp c :: verdicts exp runs cs else verdicts exp runs cs
 end
 
+mutual
+/-- Defect region: the tree holds a node of shape `ifSet f false` (a stored procedure) without
+the optional node (no external implementation) whose flag says its body does not write — the
+method answers `false` regardless. -/
+def storedProc (tbl : Table) : Node → Bool
+  | .mk _ kind _ a cs =>
+    (match resolve tbl 4 kind with
+     | some (.ifSet f _) => a.flag && nilIn f cs
+     | _ => false) || storedProcL tbl cs
+def storedProcL (tbl : Table) : List Node → Bool
+  | [] => false
+  | c :: cs => storedProc tbl c || storedProcL tbl cs
+def nilIn (f : String) : List Node → Bool
+  | [] => false
+  | c :: cs => (c.field == f && c.isNil) || nilIn f cs
+end
+
 /-- Per-kind soundness of the table against the expectation (the obligation over the
 regenerated table is `∀ k ∈ kinds, kindOk … k`, closed by `decide`). -/
-def kindOk (tbl : Table) (exp : ExpTable) (k : String) : Bool :=
-  match resolve tbl 4 k, lookupE exp k with
-  | some (.const true), some ⟨.none, []⟩ => true
-  | some (.const _), some ⟨.free, []⟩ => true
-  | some (.const false), some ⟨.write, _⟩ => true
-  | some (.fields fs), some ⟨.none, runs⟩ => fs == runs
-  | some (.via f _ _), some ⟨.none, runs⟩ => [f] == runs
-  | some (.optField f), some ⟨.none, runs⟩ => [f] == runs
-  | some .attr, some ⟨.byFlag, []⟩ => true
+def clsOk (c : Option Cls) (e : Expect) : Bool :=
+  match c, e with
+  | some (.const true), ⟨.none, []⟩ => true
+  | some (.const _), ⟨.free, []⟩ => true
+  | some (.const false), ⟨.write, _⟩ => true
+  | some (.fields fs), ⟨.none, runs⟩ => fs == runs
+  | some (.via f _ _), ⟨.none, runs⟩ => [f] == runs
+  | some (.optField f), ⟨.none, runs⟩ => [f] == runs
+  | some .attr, ⟨.byFlag, []⟩ => true
+  | some (.ifSet f false), ⟨.byFlag, runs⟩ => [f] == runs
   | _, _ => false
+
+def kindOk (tbl : Table) (exp : ExpTable) (k : String) : Bool :=
+  match lookupE exp k with
+  | some e => clsOk (resolve tbl 4 k) e
+  | none => false
+
+def fieldNodesCount (f : String) : List Node → Nat
+  | [] => 0
+  | c :: cs => (if c.field == f then 1 else 0) + fieldNodesCount f cs
+
+/-- For a kind of shape `ifSet f` (plan.Procedure): the flag "own body does not write" must be
+set when an external implementation is attached (the body is then empty). -/
+def ifSetFlagOk (f : String) (flag : Bool) : List Node → Bool
+  | [] => true
+  | c :: cs => (if c.field == f && !c.isNil then flag else true) && ifSetFlagOk f flag cs
 
 mutual
 /-- Well-formedness of a tree with respect to the tables: every node (executed or not) has a
 sound kind; a consulted field never holds nil except the optional one of `optField`; the single
 node fields `optField`/`via` consult are present exactly once. -/
 def wf (tbl : Table) (exp : ExpTable) : Node → Bool
-  | .mk _ kind _ _ cs =>
+  | .mk _ kind _ a cs =>
     kind != nilKind && kindOk tbl exp kind &&
     (match resolve tbl 4 kind with
      | some (.optField f) => (fieldNodesCount f cs == 1) && wfL tbl exp [] cs
+     | some (.ifSet f _) => (fieldNodesCount f cs == 1) && ifSetFlagOk f a.flag cs && wfL tbl exp [] cs
      | some (.fields fs) => wfL tbl exp fs cs
      | some (.via f _ _) => wfL tbl exp [f] cs
      | _ => wfL tbl exp [] cs)
@@ -333,9 +390,6 @@ def wfL (tbl : Table) (exp : ExpTable) (strict : List String) : List Node → Bo
   | [] => true
   | c :: cs =>
     (if c.kind == nilKind then !strict.contains c.field else wf tbl exp c) && wfL tbl exp strict cs
-def fieldNodesCount (f : String) : List Node → Nat
-  | [] => 0
-  | c :: cs => (if c.field == f then 1 else 0) + fieldNodesCount f cs
 end
 
 end Gms.ReadOnly
